@@ -120,9 +120,12 @@ CHECKS = {
         "bits are complete within a field. The clause 'can be allocated completely again' is proved for requests of <=2 blocks and REFUTED for "
         "multi-block requests (known finding multiblock-top-bit, witness replayed on the real arena).",
    note="Trusted: Coq kernel + vm_compute, extraction, harness and drivers. The model is tied to the code by about 8*10^4 bit-exact function records per "
-        "run and by multi-threaded implementation oracles (pthread stress on the raw functions with a shadow owner map; real arenas of 40..130 blocks); "
-        "not by schedule-lockstep replay of the atomic steps. Sequentially consistent interleaving; counts < 2^64-64; a claim is freed at most once.",
-   technique="Coq invariant proof of a small-step interleaving model + sequential specs + differential and multi-threaded implementation oracles",
+        "run, by multi-threaded implementation oracles (pthread stress on the raw functions with a shadow owner map; real arenas of 40..130 blocks) and by "
+        "schedule-lockstep replay: harness/s_arena.c runs the real bitmap.c / arena.c in virtual threads under the deterministic scheduler (every atomic "
+        "operation a scheduling point) and the extracted machine must take exactly every logged access to the bitmap (same field, old and new value, "
+        "outcome), inv_b after every step; sampled schedules only; purge operations inside _mi_arena_free/_mi_arenas_collect are matched up to their "
+        "(unobservable) arguments. Sequentially consistent interleaving; counts < 2^64-64; a claim is freed at most once.",
+   technique="Coq invariant proof of a small-step interleaving model + sequential specs + differential, multi-threaded and deterministic-scheduler oracles + schedule-lockstep replay",
    design="3/C14"),
  "C20": dict(
    text="Machine-checked proof (Coq 8.16.1) over an executable Gallina model of _mi_strlcpy/_mi_strlcat/_mi_strnicmp/_mi_getenv (environ variant), the "
